@@ -91,32 +91,59 @@ def _find_hermitisation(body, consts, env):
         k, s3, _, b3, _ = m3.groups()
         inner = rest2.lstrip()[m3.end():]
         stm = [x.strip() for x in inner.split("}")[0].split(";") if x.strip()]
-        if len(stm) != 8:
+        if len(stm) not in (8, 10):
             continue
         # alias hoisted between the direction loop and the row loop:  alias = base + offset(d)
-        alias = {}
+        hoisted = {}
         for h in [x.strip() for x in hoist.split(";") if x.strip()]:
-            mh = re.match(r"(\w+)\s*=\s*(\w+)\s*\+\s*(.+)$", h)
+            mh = re.match(r"(\w+)\s*=\s*(.+)$", h)
             if not mh:
-                alias = None
+                hoisted = None
                 break
-            alias[mh.group(1)] = (mh.group(2), mh.group(3))
-        if alias is None:
+            hoisted[mh.group(1)] = mh.group(2)
+        if hoisted is None:
             continue
         ma, mt = re.match(r"(\w+)\s*=\s*(.+)$", stm[0]), re.match(r"(\w+)\s*=\s*(.+)$", stm[1])
         if not (ma and mt):
             continue
         A, AT = ma.group(1), mt.group(1)
-        upd = "".join(re.sub(r"\s+", "", x) + ";" for x in stm[2:])
-        mm = re.match(r"(\w+)\[", upd)
+        upd = [re.sub(r"\s+", "", x) for x in stm[2:]]
+        mm = re.search(r"(\w+)\[%s\]\[0\]" % A, "".join(upd))
         if not mm:
             continue
         M = mm.group(1)
-        want = ("M[A][0]+=M[AT][0];M[A][0]/=2;M[A][1]-=M[AT][1];M[A][1]/=2;M[AT][0]=M[A][0];M[AT][1]=-M[A][1];"
-                .replace("AT", "\x00").replace("A", A).replace("\x00", AT).replace("M[", M + "["))
-        if upd != want:
+
+        def canon(x, R=None, I=None):
+            x = x.replace("%s[%s]" % (M, AT), "M[\x00]").replace("%s[%s]" % (M, A), "M[A]").replace("\x00", "AT")
+            if R:
+                x = re.sub(r"\b%s\b" % R, "R", x)
+                x = re.sub(r"\b%s\b" % I, "I", x)
+            return x
+
+        body_ok = False
+        if len(upd) == 6:
+            # in place: the read/write order of `hermStep` (load both, average, store (j,k) then its conjugate at (k,j))
+            body_ok = [canon(x) for x in upd] == ["M[A][0]+=M[AT][0]", "M[A][0]/=2", "M[A][1]-=M[AT][1]", "M[A][1]/=2",
+                                                  "M[AT][0]=M[A][0]", "M[AT][1]=-M[A][1]"]
+        elif len(upd) == 8:
+            # local scalars: load both entries, average, store both - the same state transformer `hermStep` (for j = k both forms
+            # leave (re, -0) resp. (re, +-0): equal in exact arithmetic)
+            mr, mi_ = re.match(r"(\w+)=", upd[0]), re.match(r"(\w+)=", upd[2])
+            if mr and mi_:
+                cu = [canon(x, mr.group(1), mi_.group(1)) for x in upd]
+                body_ok = cu[:4] == ["R=M[A][0]+M[AT][0]", "R/=2", "I=M[A][1]-M[AT][1]", "I/=2"] and \
+                    sorted(cu[4:]) == sorted(["M[A][0]=R", "M[A][1]=I", "M[AT][0]=R", "M[AT][1]=-I"])
+        if not body_ok:
             continue
-        base, off = alias.get(M, (M, "0"))
+        if M in hoisted:  # pointer alias hoisted out of the row loop:  alias = base + offset(direction)
+            mal = re.match(r"(\w+)\s*\+\s*(.+)$", hoisted[M])
+            if not mal:
+                continue
+            base, off = mal.group(1), mal.group(2)
+        else:
+            base, off = M, "0"
+        consts = dict(consts)
+        consts.update({k_: v_ for k_, v_ in hoisted.items() if k_ != M})  # loop-invariant integers (may depend on the direction)
         if env.get(base, base) != "OUT":
             continue
 
@@ -167,7 +194,16 @@ def parse_loop_spec():
     out_name, np_name = pn[0], pn[1]
 
     def consts_of(text):
-        return {m.group(1): m.group(2) for m in re.finditer(r"const\s+int64_t\s+(\w+)\s*=\s*([^;]+);", text)}
+        """loop-invariant integers: `const int64_t x = e;` and locals assigned exactly once by a plain `x = e;` whose right-hand
+        side is integer arithmetic over identifiers (single static assignment: the definition can be substituted)."""
+        out = {m.group(1): m.group(2) for m in re.finditer(r"const\s+int64_t\s+(\w+)\s*=\s*([^;]+);", text)}
+        flat = re.sub(r"for\s*\([^)]*\)", " ", text)
+        for m in re.finditer(r"(?<![\w\]\.])(\w+)\s*=\s*([\w\s\*\+\-/\(\)]+);", flat):
+            nm = m.group(1)
+            nwrites = len(re.findall(r"(?<![\w\]\.])%s\s*(?:[\+\-\*/]?=(?!=)|\+\+|--)" % nm, text))
+            if nwrites == 1 and nm not in out and not re.match(r"\d", nm):
+                out[nm] = m.group(2).strip()
+        return out
 
     found = []
     r0 = _find_hermitisation(body, consts_of(body), {out_name: "OUT", "NP": np_name})
@@ -491,9 +527,12 @@ def main(run):
     thorough = run.tier == "thorough"
     run.proof_step(leancheck=thorough)
     spec, err = parse_loop_spec()
-    if spec is None:
+    spec_ok = spec is not None
+    if not spec_ok:
+        # one entry is enough: the loop-dependent model output (lang='C') is NOT compared below - there is no model of the loop;
+        # the float-side oracles (numerical derivative, C vs Py) decide
         run.broke("proof", "translator(c/derivative_dynmat.c): " + err)
-        spec = (1, 0)
+        spec = (0, 1)
     run.cov["loop_spec_from_source"] = {"j_starts_at_direction_index": bool(spec[0]), "k_starts_at_j": bool(spec[1])}
     as_written = spec == (1, 0)
     run.cov["rule"] = (
@@ -1433,7 +1472,7 @@ def main(run):
                 run.broke("correspondence", "model rejected input (ddmall)", info)
                 continue
             for key, ref in (("C", impl["C"]), ("Py", impl["Py"]), ("D", impl["D"])):
-                if ref is None:
+                if ref is None or (key == "C" and not spec_ok):
                     continue
                 ncmp += 1
                 run.count("ddm-%s" % key, section="correspondence")
